@@ -87,18 +87,19 @@ Definition takeN (n : N) (bs : bytes) : option (bytes * bytes) :=
   if n <=? N.of_nat (length bs) then Some (firstn (N.to_nat n) bs, skipn (N.to_nat n) bs) else None.
 
 Definition parse_value (wt : N) (bs : bytes) : wres (wval * bytes) :=
-  match wt with
-  | 0 => match varint_decode bs with Some (v, r) => WOk (WVarint v, r) | None => WErr end
-  | 1 => match takeN 8 bs with Some (b, r) => WOk (WFix64 b, r) | None => WErr end
-  | 2 => match varint_decode bs with
-         | Some (l, r) => match takeN l r with Some (b, r') => WOk (WLen b, r') | None => WErr end
-         | None => WErr
-         end
-  | 5 => match takeN 4 bs with Some (b, r) => WOk (WFix32 b, r) | None => WErr end
-  | 3 => WGroup
-  | 4 => WGroup
-  | _ => WErr
-  end.
+  if wt =? 0 then
+    match varint_decode bs with Some (v, r) => WOk (WVarint v, r) | None => WErr end
+  else if wt =? 1 then
+    match takeN 8 bs with Some (b, r) => WOk (WFix64 b, r) | None => WErr end
+  else if wt =? 2 then
+    match varint_decode bs with
+    | Some (l, r) => match takeN l r with Some (b, r') => WOk (WLen b, r') | None => WErr end
+    | None => WErr
+    end
+  else if wt =? 5 then
+    match takeN 4 bs with Some (b, r) => WOk (WFix32 b, r) | None => WErr end
+  else if (wt =? 3) || (wt =? 4) then WGroup
+  else WErr.
 
 Fixpoint parse_fields (fuel : nat) (bs : bytes) : wres (list field) :=
   match bs with
@@ -214,7 +215,8 @@ Fixpoint tdepth (v : tval) : nat :=
 Definition fdepth (fs : list tfield) : nat := S (list_max (map (fun kv : tfield => tdepth (snd kv)) fs)).
 
 (* canonical flat field: what a serializer emits *)
-Definition fno_ok (k : N) : bool := (1 <=? k) && (k <? 536870912).
+(* protobuf itself stops at 2^29-1; the round trip only needs the tag k*8+wt to fit 64 bits *)
+Definition fno_ok (k : N) : bool := (1 <=? k) && (k <? 2305843009213693952).
 Definition wval_ok (v : wval) : bool :=
   match v with
   | WVarint n => n <? two64
